@@ -246,6 +246,35 @@ def run(ctx):
                                                    "using a bound name gives the same result as writing the parenthesised expression in its place") + f": `{text(ins[i])}` vs `{text(ins[j])}`"})
         if ao != mo:
             ctx.model_disagreements.append({"stream": "programs", "input": line, "impl": " ;; ".join(ao), "model": " ;; ".join(mo)})
+    # closures keep the bindings they were created with — also when a new function is built from them by arithmetic (`f * 2`, `-f`, `2 f`, `f!`,
+    # ...; outside the Lean model, so this family is decided by an independent evaluation in python): a partially applied `k: x: BODY`, combined
+    # with a number, stored or not, then applied where `k` means something else
+    fa_lines, fa_want = [], []
+    for _ in range(150 if quick else 4000):
+        K, X, N = r.randint(2, 9), r.randint(1, 9), r.randint(2, 5)
+        kn, xn = r.choice(["k", "a", "y"]), r.choice(["x", "z"])
+        bt, bf = r.choice([(f"{xn} + {kn}", lambda x_, k_: F(x_ + k_)), (f"{xn} * {kn}", lambda x_, k_: F(x_ * k_)), (f"{kn} - {xn}", lambda x_, k_: F(k_ - x_)),
+                           (f"{xn} * {kn} + 1", lambda x_, k_: F(x_ * k_ + 1)), (f"({xn} + {kn}) * {kn}", lambda x_, k_: F((x_ + k_) * k_))])
+        lamtxt = {0: f"(\\{kn}. (\\{xn}. {bt}))", 1: f"({kn}: ({xn}: {bt}))", 2: f"({kn} => ({xn} => {bt}))"}[r.randrange(3)]
+        Fx = f"({lamtxt} {K})"
+        base = bf(X, K)
+        form, val = r.choice([(f"({Fx} * {N})", base * N), (f"({Fx} / {N})", base / N), (f"({Fx} ^ 2)", base ** 2), (f"({N} {Fx})", N * base), (f"({Fx} + {N})", base + N),
+                              (f"({N} * {Fx})", N * base), (f"(-{Fx})", -base), (f"(({Fx} * {N}) / {N + 1})", base * N / (N + 1))])
+        pre = [f"{kn} = {r.randint(50, 99)}"] if r.random() < 0.6 else []
+        if r.random() < 0.4:
+            stmts = pre + [f"ff = {Fx}", f"gg = {form.replace(Fx, 'ff')}", f"{kn} = {r.randint(100, 200)}", f"(gg {X}) to fraction"]
+        else:
+            stmts = pre + [f"({form} {X}) to fraction"]
+        fa_lines.append(" ;; ".join(stmts)); fa_want.append(val)
+    fa_out = ctx.run_lines_robust(h, ["evalctx"], fa_lines, env={"HARNESS_LINE_TIMEOUT_S": "30"})
+    dist["function_arithmetic"] = len(fa_lines)
+    for line, o, want in zip(fa_lines, fa_out, fa_want):
+        last = o.split(" ;; ")[-1]
+        mm = re.fullmatch(r"ok (-?[0-9]+)(?:/([0-9]+))?", last)
+        got = F(int(mm.group(1)), int(mm.group(2) or 1)) if mm else None
+        if got != want:
+            ctx.spec_failures.append({"stream": "programs", "input": line, "impl": last[:120], "model": str(want),
+                                      "spec": "closures keep the bindings they were created with: a function built from a closure by arithmetic still sees the closure's own binding of its free name, not whatever that name means where the new function is applied"})
     # histories: `_` / `ans` after successes, failures and unit results
     hist, hm = [], []
     for _ in range(400 if quick else 8000):
@@ -293,7 +322,7 @@ def run(ctx):
         if ao != mo:
             ctx.model_disagreements.append({"stream": "histories", "input": line, "impl": " ;; ".join(ao), "model": " ;; ".join(mo)})
     ctx.record_stream("programs", "random typed programs in one context: assignments (also of built-in names), lambda definitions in all three notations (curried, higher-order), uses, immediate redexes with their "
-                      "substituted forms and `v = E; USE` with `USE[v := (E)]`; hand-on programs (nests of lambdas over three names in which parameters are passed on as bare identifiers to inner, stored and "
+                      "substituted forms and `v = E; USE` with `USE[v := (E)]`; functions built from closures by arithmetic (`f * 2`, `-f`, `2 f`, stored and re-bound names) against an independent evaluation; hand-on programs (nests of lambdas over three names in which parameters are passed on as bare identifiers to inner, stored and "
                       "received lambdas that re-bind the names free in the original argument); each pair must print alike, and every answer must equal the Lean scope model's; then histories of successes, failures and unit "
                       "results with reads of `_` / `ans` replayed against the statement itself", len(lines) + len(hist), len(set(lines)) + len(set(map(tuple, hist))), dist, lines[:2] + [" ;; ".join(hist[0])], time.time() - t0)
     return ctx.finish(rule="quick 700 programs + 500 hand-on programs + 400 histories; thorough 15000 + 10000 + 8000")
